@@ -346,7 +346,7 @@ class MathModel(types.ModuleType):
                 setattr(self, k, _guard_native(v, f"math.{k}"))
             else:
                 setattr(self, k, v)
-        for nm, fn in dict(floor=m_floor, ceil=m_ceil, trunc=m_trunc, fmod=m_fmod, isfinite=m_isfinite, isnan=m_isnan, isinf=m_isinf, fabs=m_fabs, log2=m_log2, sqrt=m_sqrt, radians=m_radians, degrees=m_degrees, cos=m_cos, sin=m_sin).items():
+        for nm, fn in dict(floor=m_floor, ceil=m_ceil, trunc=m_trunc, fmod=m_fmod, isfinite=m_isfinite, isnan=m_isnan, isinf=m_isinf, fabs=m_fabs, log2=m_log2, sqrt=m_sqrt, hypot=m_hypot, radians=m_radians, degrees=m_degrees, cos=m_cos, sin=m_sin).items():
             setattr(self, nm, _tracked(fn, f"math.{nm}"))
 
 
@@ -469,6 +469,19 @@ def m_sqrt(x):
     return _math.sqrt(x)
 
 
+def m_hypot(*xs):
+    """math.hypot = the non-negative root of the sum of squares"""
+    if _b.any(_real_isinstance(x, SymBase) for x in xs):
+        acc = 0
+        for x in xs:
+            acc = acc + x * x
+        c = sym.ctx()
+        r = z3.Real(c.fresh_name("hypot"))
+        c.assume(z3.And(r >= 0, r * r == sym_float(acc).t), fact=True)
+        return SymReal(r)
+    return _math.hypot(*xs)
+
+
 def m_radians(x):
     if _real_isinstance(x, SymBase):
         return sym_float(x) * (_math.pi / 180.0)
@@ -529,9 +542,10 @@ SUBST = {
     id(_math.fabs): m_fabs,
     id(_math.log2): m_log2,
     id(_math.sqrt): m_sqrt,
+    id(_math.hypot): m_hypot,
     id(_math.radians): m_radians,
     id(_math.degrees): m_degrees,
     id(_math.cos): m_cos,
     id(_math.sin): m_sin,
 }
-_KEEP = [_math.floor, _math.ceil, _math.trunc, _math.fmod, _math.isfinite, _math.isnan, _math.isinf, _math.fabs, _math.log2, _math.sqrt, _math.radians, _math.degrees, _math.cos, _math.sin]
+_KEEP = [_math.floor, _math.ceil, _math.trunc, _math.fmod, _math.isfinite, _math.isnan, _math.isinf, _math.fabs, _math.log2, _math.sqrt, _math.hypot, _math.radians, _math.degrees, _math.cos, _math.sin]
